@@ -73,11 +73,59 @@ def ground(R):
     R.samples.append(dict(ground='America/Los_Angeles', id='0x%08x' % cur['America/Los_Angeles'], djb2='0x%08x' % tables.djb2('America/Los_Angeles')))
 
 
+def refuter(R):
+    """Bounded stand-in used only as the refuter: the real hash_name / _detect_hash_collisions in CPython on colliding and
+    non-colliding name sets; returns a failing input or None."""
+    import subprocess
+    code = r"""
+import sys, json
+sys.path.insert(0, %r)
+from tzdb.transformer import Transformer, hash_name
+def djb2(n):
+    h = 5381
+    for c in n: h = (h * 33 + ord(c)) %% (1 << 32)
+    return h
+fail = None
+names = ['America/Los_Angeles', 'Europe/London', 'Etc/UTC', 'A', '', 'Asia/Ho_Chi_Minh', 'X/Dab', 'X/DbA', 'zz' * 40]
+for n in names:
+    if hash_name(n) != djb2(n): fail = dict(what='hash_name differs from djb2', name=n, got=hash_name(n), want=djb2(n))
+t = Transformer.__new__(Transformer)
+sets = [['X/Dab', 'X/DbA'], ['A/x', 'X/Dab', 'B/y', 'X/DbA'], ['X/DbA', 'Europe/London', 'X/Dab'], ['Europe/London', 'Etc/UTC'], []]
+evals = 0
+for s in sets:
+    zm = {n: [] for n in s}
+    collide = len({djb2(n) for n in s}) != len(s)
+    try:
+        r = t._detect_hash_collisions(zm); raised = False
+    except Exception: raised = True
+    evals += 1
+    if raised != collide and fail is None:
+        fail = dict(what='collision check', names=s, has_collision=collide, raised=raised)
+print(json.dumps(dict(fail=fail, evaluations=evals + len(names))))
+""" % os.path.join(build.REPO, 'tools')
+    p = subprocess.run(['/venv/bin/python', '-c', code], capture_output=True, text=True)
+    try:
+        j = json.loads(p.stdout.strip().split('\n')[-1])
+    except Exception:
+        j = dict(fail=dict(what='refuter crashed', stderr=p.stderr[-500:]), evaluations=0)
+    R.bounded.append(dict(name='refuter: real hash_name / _detect_hash_collisions in CPython', bound='9 names, 5 name sets (with and without a djb2 collision)',
+                          evaluations=j.get('evaluations', 0), distinct_nontrivial=5, rule='one evaluation per name / per name set',
+                          samples=[dict(names=['X/Dab', 'X/DbA'], note='djb2 collision pair')]))
+    return j.get('fail')
+
+
 def run(R):
     common.load_ir(R)
     obs = []
-    o1, n1 = zoneid.hash_name_obligations()
-    o2, n2 = zoneid.collision_obligations()
+    from vc.pyvc import PyOutOfReach
+    try:
+        o1, n1 = zoneid.hash_name_obligations()
+        o2, n2 = zoneid.collision_obligations()
+    except PyOutOfReach as e:
+        R.out_of_reach.append(('tools/tzdb/transformer.py', str(e)))
+        check.write_evidence(R, 'proof', 'out of reach: %s' % e)
+        R.log('OUT OF REACH', e)
+        return 2
     R.functions['tools/tzdb/transformer.py:hash_name'] = dict(paths=n1, generated=len(o1), engine='pyvc')
     R.functions['tools/tzdb/transformer.py:Transformer._detect_hash_collisions'] = dict(paths=n2, generated=len(o2), engine='pyvc')
     for name, pc, goal in o1 + o2:
@@ -86,9 +134,12 @@ def run(R):
             continue
         obs.append(symex.Obligation('py:' + name, 'post', name.split('#')[0], None, list(pc), goal, {'no_entry_state': True}))
     check.discharge(R, obs, timeout=60)
+    fail = refuter(R)
+    if fail:
+        R.refutation = dict(case=str(fail))
     ground(R)
     badg = [g for g in R.ground if not g[1]]
-    if badg:
+    if badg and not R.refutation:
         R.refutation = dict(case='ground obligation over the shipped tables fails', failing=[(g[0], str(g[2])[:300]) for g in badg])
         R.refutation_applies = lambda o: False
     # the spec recurrence instantiated on concrete names equals the independent djb2 used for the ground obligations
